@@ -48,6 +48,8 @@ type Opt struct {
 	Timeout time.Duration
 	// MemKB > 0 bounds the address space (ulimit -v) through a shell wrapper.
 	MemKB int
+	// StdinChunks > 1 delivers stdin in that many pieces with a pause in between (a pipe fed by a slow writer).
+	StdinChunks int
 }
 
 func runOnce(o Opt, args []string) Res {
@@ -68,7 +70,31 @@ func runOnce(o Opt, args []string) Res {
 	} else {
 		cmd = exec.CommandContext(ctx, bin, args...)
 	}
-	cmd.Stdin = bytes.NewReader(o.Stdin)
+	if o.StdinChunks > 1 && len(o.Stdin) >= o.StdinChunks {
+		pr, pw, err := os.Pipe()
+		if err == nil {
+			cmd.Stdin = pr
+			go func() {
+				defer pw.Close()
+				n := len(o.Stdin) / o.StdinChunks
+				for i := 0; i < o.StdinChunks; i++ {
+					end := (i + 1) * n
+					if i == o.StdinChunks-1 {
+						end = len(o.Stdin)
+					}
+					if _, err := pw.Write(o.Stdin[i*n : end]); err != nil {
+						return
+					}
+					time.Sleep(40 * time.Millisecond)
+				}
+			}()
+			defer pr.Close()
+		} else {
+			cmd.Stdin = bytes.NewReader(o.Stdin)
+		}
+	} else {
+		cmd.Stdin = bytes.NewReader(o.Stdin)
+	}
 	var so, se bytes.Buffer
 	cmd.Stdout = &so
 	cmd.Stderr = &se
